@@ -8,4 +8,6 @@ for id in $ids; do
   e=$(date +%s)
   echo "$id rc=$rc wall=$((e-s))s :: $(echo "$out" | grep -E "^$id " | tail -1)"
   echo "$out" | grep -E "VIOLATION|KNOWN-FINDING|INTERNAL|vcheck:" | head -10
+  # keep a copy of the thorough evidence: evidence/<id>.json is rewritten by the next (quick) run
+  if [ "$tier" = thorough ] && [ -f evidence/$id.json ]; then mkdir -p evidence-thorough; cp evidence/$id.json evidence-thorough/$id.json; fi
 done
